@@ -15,8 +15,8 @@ RULE = (
     "atom-map permutation of the template reaction, one generated rewriting of the substrate SMILES [atom order, "
     "ring-closure digits, fragment order]); every representation is run with strategies all, comp and bt, and "
     "the call is repeated on the same template object. Oracle (metamorphic): set of own unmapped keys of "
-    "smarts_list identical across representations and repeats; comp subset of all; bt == comp if comp non-empty "
-    "else all. Each comparison is made twice: with the reactor as is, and with the unpruned SubgraphSearchEngine "
+    "smarts_list identical across representations and repeats; comp subset of all; bt == comp whenever comp has "
+    "results, else bt subset of all (the fallback itself is decided on matches and is checked under C06). Each comparison is made twice: with the reactor as is, and with the unpruned SubgraphSearchEngine "
     "matches injected - a difference that vanishes with raw matches is attributed to the recorded pruning "
     "finding, one that persists is reported. Non-trivial = pattern disconnected or with two like-labelled nodes, "
     "and >= 2 matches; distinct by the case tuple."
@@ -39,6 +39,10 @@ def body(case, rec):
     s_rsmi = cg.corpus()[si][0]
     r, p = s_rsmi.split(">>")
     sub0 = cg.unmapped(p if invert else r)
+    if case.get("spectator"):
+        # an inert extra fragment: the substrate then has more components than a small pattern, so the strict
+        # component-aware strategy is empty by its documented rule and the fallback must equal the exhaustive one
+        sub0 = sub0 + "." + case["spectator"]
     sub1 = sub0
     if case.get("satoms"):
         sub1 = cg.reorder_side(sub1, case["satoms"])
@@ -72,8 +76,13 @@ def body(case, rec):
             a, c, b = table[(name, "all")], table[(name, "comp")], table[(name, "bt")]
             if not c <= a:
                 return ("comp-not-subset-of-all", f"{where} [{name}]: comp has {len(c - a)} results that all lacks")
-            if b != (c if c else a):
-                return ("bt-fallback", f"{where} [{name}]: bt={len(b)} comp={len(c)} all={len(a)}")
+            # the fallback is decided on MATCHES (C06), not on the reactions they yield: when the component-aware
+            # matches exist but none yields a valid reaction, bt legitimately has no result although all has some.
+            # Asserted here is what the statement says: bt == comp whenever comp has results; otherwise bt is within all.
+            if c and b != c:
+                return ("bt-fallback", f"{where} [{name}]: comp has {len(c)} results but bt has {len(b)} (all={len(a)})")
+            if not c and not b <= a:
+                return ("bt-fallback", f"{where} [{name}]: bt has {len(b - a)} results that all lacks (comp empty)")
         return None
 
     table, reactor = run(False)
@@ -83,6 +92,10 @@ def body(case, rec):
     sym = sym or len(set(labels)) < len(labels)
     nres = len(table[("base", "all")])
     rec.nt(sym and len(reactor.mappings) >= 2)
+    lat = table[("base", "all")], table[("base", "comp")], table[("base", "bt")]
+    rec.label("lattice:comp-empty-all-nonempty" if (lat[0] and not lat[1]) else ("lattice:comp-proper-subset" if lat[1] < lat[0] else "lattice:comp==all"))
+    if case.get("spectator"):
+        rec.label("spectator-fragment")
     rec.label(f"style={style}", f"kind={kind}", "own" if ti == si else "foreign", "results=0" if nres == 0 else ("results=1" if nres == 1 else "results>=2"))
     rec.show(dict(template=t0[:140], substrate=sub0[:100], rewritten=sub1[:100], kind=kind, invert=invert, results=nres))
     bad = compare(table)
@@ -163,7 +176,7 @@ def strat(tier):
         opts = [st.just(t), st.just(t)]
         if mates:
             opts += [st.sampled_from(mates), st.sampled_from(mates), st.sampled_from(mates)]
-        opts.append(st.sampled_from(el))
+        opts += [st.sampled_from(el), st.sampled_from(el), st.sampled_from(el)]
         return st.one_of(*opts)
 
     return st.sampled_from(el).flatmap(
@@ -173,6 +186,7 @@ def strat(tier):
                 sub=pick_sub(t),
                 kind=st.sampled_from(["rc", "rc", "rc", "its"]),
                 invert=st.booleans(),
+                spectator=st.sampled_from([None, None, "O", "CO", "[Na+]", "C1CCOC1"]),
                 tmaps=keys,
                 offset=st.sampled_from([0, 0, 100]),
                 satoms=st.one_of(st.none(), keys, keys),
